@@ -349,6 +349,12 @@ def build_image(im, image_id, resolved):
         mode = im.get("line_mode") or "distinct"
         # "steps": piecewise constant, the value changes at lines 4, 15, 1000, 1024 and 4096
         salt = 100 * (image_id + 1) + (k if mode == "distinct" else sum(k >= c for c in (4, 15, 1000, 1024, 4096)) if mode == "steps" else 0)
+        if mode == "steps":
+            # per-line flags are set on every other stretch: set, cleared again, set ...
+            stretch = sum(k >= c for c in (4, 15, 1000, 1024, 4096))
+            for f in rec.fields:
+                if f.get("flag") and f["key"] not in LINE_CONSTANTS and f["key"] not in ov:
+                    ov[f["key"]] = (stretch + 1) % 2
         if mode == "drift":
             # consecutive lines differ by one unit of every wide numeric field (and 1 ms / 1 us)
             for f in rec.fields:
